@@ -106,6 +106,9 @@ RECURSIVE PolyRoots(_, _, _)
 PolyRoots(as, i, m) ==
     IF i = 0 THEN <<BMod(<<1>>, m)>>
     ELSE CHOOSE q \in {PolyMulLinR(p, IModPos(Val(as[i]), m), m, 1) : p \in {PolyRoots(as, i - 1, m)}} : TRUE
+RECURSIVE ProdPow(_, _, _, _)
+ProdPow(as, bs, j, m) == IF j > Len(as) THEN BMod(<<1>>, m)
+                         ELSE BMulMod(BModExp(IModPos(Val(as[j]), m), BNorm(bs[j].d), m), ProdPow(as, bs, j + 1, m), m)
 RECURSIVE HornerEval(_, _, _, _)
 HornerEval(as, j, x, m) == IF j > Len(as) THEN <<>>
                            ELSE BAddMod(IModPos(Val(as[j]), m), BMulMod(HornerEval(as, j + 1, x, m), x, m), m)
@@ -309,6 +312,13 @@ BntAccept(e) ==
             ELSE LET v == IF m = <<1>> THEN <<>>
                           ELSE BMulMod(BModExp(IModPos(Val(e.a), m), b.mag, m),
                                        BModExp(IModPos(Val(e.d), m), x.mag, m), m)
+                 IN  \/ RetN(e, e.c, v)
+                     \/ (e.bnmod = "monty" /\ BBit(m, 0) = 0 /\ MustThrow(e))
+      [] e.op = "bn_mxp_sim_lot" ->
+            \* c = prod a_i^b_i mod m for every number of terms (the routine works through the terms in blocks of eight)
+            LET m == MagOf(e.m) IN
+            IF ~PosMod(e) \/ e.n = 0 \/ (\E j \in 1..e.n : e.bs[j].s = 1) THEN TRUE
+            ELSE LET v == IF m = <<1>> THEN <<>> ELSE ProdPow(e.as, e.bs, 1, m)
                  IN  \/ RetN(e, e.c, v)
                      \/ (e.bnmod = "monty" /\ BBit(m, 0) = 0 /\ MustThrow(e))
       [] e.op = "bn_mxp_crt" ->
